@@ -112,6 +112,26 @@ def d3_wait_returns_on_first_failure(ctx, rm: REModel):
            "" if ok else "the completion of a status no longer reaches _status_object_completed / the group", where=where(a, a.node))
 
 
+def d5_pardon_only_when_call_is_over(ctx, rm: REModel):
+    """Status failures are ignored ('pardoned') only once the call is being torn down."""
+    repo = rm.repo
+    q.check_writers(ctx, "C12.D5-pardon-only-at-teardown", repo, "_pardon_failures",
+                    {f"{CLS}.__init__": "no call yet", f"{CLS}._clear_call_cache": "a fresh event for every call"}, modules=[MOD], min_instances=2, kinds=("assign",))
+    n = 0
+    for f in repo.funcs_in(MOD):
+        for c in A.calls_in(f.node):
+            cn = A.call_name(c) or ""
+            if cn.endswith("_pardon_failures.set") or cn == "pardon_failures.set":
+                n += 1
+                in_finally = f.key == rm.run.key and any(c is x for s in A.walk_stmts(rm.outer_try.finalbody) for x in A.calls_in(s))
+                ctx.ob("C12.D5-pardon-only-at-teardown", cname(f, c), in_finally,
+                       "" if in_finally else "statuses are pardoned while the plan is still running: a status that fails afterwards never reaches the plan", where=where(f, c))
+    ctx.ob("C12.D5-pardon-only-at-teardown", f"{MOD}:pardon sites", n >= 1, f"{n} site(s)", where="")
+    a = rm.m("_add_status_to_group")
+    ok = "pardon_failures = self._pardon_failures" in A.norm(a.node)
+    ctx.ob("C12.D5-pardon-only-at-teardown", cname(a, None, "each status captures the event of the call that issued it"), ok, "" if ok else "capture changed", where=where(a, a.node))
+
+
 def d4_unhandled_ends_call(ctx, rm: REModel):
     run = rm.run
     # in the three `except` blocks that pop a dead plan: when no plan is left the exception is re-raised
@@ -145,6 +165,7 @@ def run(ctx):
         "polled under the lock in every iteration and the poll dominates send/throw; D3 wait returns at the first failed status of its "
         "group (FIRST_EXCEPTION forwarded) and every status-returning command registers its status; a failed status is stored in both "
         "channels (C02.D4); D4 an exception no plan handles is re-raised when the stack empties and by the outer ladder. "
+        "D5 status failures are pardoned only in _run's final cleanup and the pardon event is replaced only at call start. "
         "Not decided: which yield a concurrent status failure lands on.")
     d1_error_discipline(ctx, rm)
     d2_poll_every_iteration(ctx, rm)
@@ -154,6 +175,7 @@ def run(ctx):
     for o in ctx.obligations[n0:]:
         o["rule"] = o["rule"].replace("C02.D4", "C12.D3")
     d4_unhandled_ends_call(ctx, rm)
+    d5_pardon_only_when_call_is_over(ctx, rm)
 
 
 CLAIM = {
